@@ -8,10 +8,11 @@
 (* world-level clauses of C01, C05, C08, C10 and C13 on the model.         *)
 (***************************************************************************)
 EXTENDS SodgCore
-CONSTANTS Cap, Labels, Vals, NHandles
-VARIABLES gs, issued, ev
-wvars == <<gs, issued, ev>>
-wview == <<gs, issued>>
+CONSTANTS Cap, Labels, Vals, NHandles, WithFile
+VARIABLES gs, issued, ev,
+          file      \* the checkpoint file: Null, or the graph as it was when save() wrote it (a snapshot in time)
+wvars == <<gs, issued, ev, file>>
+wview == <<gs, issued, file>>
 Hs == 0..(NHandles - 1)
 Ids == 0..(Cap - 1)
 Null == [cap |-> 0]
@@ -20,31 +21,42 @@ Live(h) == gs[h].cap # 0
 WInit == /\ gs = [h \in Hs |-> IF h = 0 THEN EmptyG(Cap) ELSE Null]
          /\ issued = [h \in Hs |-> {}]
          /\ ev = [op |-> "init"]
+         /\ file = Null
 
 WAdd(h, v) == /\ Live(h) /\ AddOk(gs[h], v)
               /\ gs' = [gs EXCEPT ![h] = AddOp(@, v)] /\ UNCHANGED issued
-              /\ ev' = [op |-> "add", h |-> h, v |-> v]
+              /\ ev' = [op |-> "add", h |-> h, v |-> v] /\ UNCHANGED file
 WBind(h, v1, v2, a) == /\ Live(h) /\ BindOk(gs[h], v1, v2, a)
               /\ gs' = [gs EXCEPT ![h] = BindOp(@, v1, v2, a)] /\ UNCHANGED issued
-              /\ ev' = [op |-> "bind", h |-> h, v1 |-> v1, v2 |-> v2, a |-> a]
+              /\ ev' = [op |-> "bind", h |-> h, v1 |-> v1, v2 |-> v2, a |-> a] /\ UNCHANGED file
 WPut(h, v, d) == /\ Live(h) /\ PutOk(gs[h], v)
               /\ gs' = [gs EXCEPT ![h] = PutOp(@, v, d)] /\ UNCHANGED issued
-              /\ ev' = [op |-> "put", h |-> h, v |-> v, d |-> d]
+              /\ ev' = [op |-> "put", h |-> h, v |-> v, d |-> d] /\ UNCHANGED file
 WData(h, v) == /\ Live(h) /\ DataOk(gs[h], v)
               /\ gs' = [gs EXCEPT ![h] = DataOp(@, v)] /\ UNCHANGED issued
-              /\ ev' = [op |-> "data", h |-> h, v |-> v, ret |-> DataRet(gs[h], v)]
+              /\ ev' = [op |-> "data", h |-> h, v |-> v, ret |-> DataRet(gs[h], v)] /\ UNCHANGED file
 WNextId(h) == /\ Live(h) /\ NextIdOk(gs[h])
               /\ gs' = [gs EXCEPT ![h] = NextIdOp(@)]
               /\ issued' = [issued EXCEPT ![h] = @ \cup {NextIdOf(gs[h])}]
-              /\ ev' = [op |-> "next_id", h |-> h, ret |-> NextIdOf(gs[h])]
+              /\ ev' = [op |-> "next_id", h |-> h, ret |-> NextIdOf(gs[h])] /\ UNCHANGED file
 WClone(h, d) == /\ Live(h) /\ h # d
               /\ gs' = [gs EXCEPT ![d] = CloneOp(gs[h])]
               /\ issued' = [issued EXCEPT ![d] = issued[h]]
-              /\ ev' = [op |-> "clone", h |-> h, dst |-> d]
+              /\ ev' = [op |-> "clone", h |-> h, dst |-> d] /\ UNCHANGED file
 WReload(h, d) == /\ Live(h) /\ h # d
               /\ gs' = [gs EXCEPT ![d] = ReloadOp(gs[h])]
               /\ issued' = [issued EXCEPT ![d] = {}]
-              /\ ev' = [op |-> "reload", h |-> h, dst |-> d]
+              /\ ev' = [op |-> "reload", h |-> h, dst |-> d] /\ UNCHANGED file
+\* save() now, load() later: the file keeps the graph as it was when it was written, whatever happens to the original
+\* afterwards (with one handle, load() is a roll-back to the checkpoint); WithFile switches the pair on (the file
+\* multiplies the state space, so it is explored with one handle)
+WSave(h) ==   /\ WithFile /\ Live(h)
+              /\ file' = gs[h] /\ UNCHANGED <<gs, issued>>
+              /\ ev' = [op |-> "save", h |-> h]
+WLoad(d) ==   /\ WithFile /\ file.cap # 0
+              /\ gs' = [gs EXCEPT ![d] = ReloadOp(file)]
+              /\ issued' = [issued EXCEPT ![d] = {}]
+              /\ ev' = [op |-> "load", h |-> d, dst |-> d] /\ UNCHANGED file
 AllP(f, t, a) == TRUE
 LtP(f, t, a) == f < t
 WSlice(h, d, v, lt) ==
@@ -52,7 +64,7 @@ WSlice(h, d, v, lt) ==
               /\ IF lt THEN SliceOk(gs[h], v, LtP) ELSE SliceOk(gs[h], v, AllP)
               /\ gs' = [gs EXCEPT ![d] = IF lt THEN SliceOp(gs[h], v, LtP) ELSE SliceOp(gs[h], v, AllP)]
               /\ issued' = [issued EXCEPT ![d] = {}]
-              /\ ev' = [op |-> "slice", h |-> h, dst |-> d, v |-> v, lt |-> lt]
+              /\ ev' = [op |-> "slice", h |-> h, dst |-> d, v |-> v, lt |-> lt] /\ UNCHANGED file
 
 \* merge(gs[d] into gs[h]): whatever the shape of gs[d] (tree, DAG, loop, forest) as long as every step stays inside
 \* the limits (MergeOp.lim; join() is then never reached); the additions stay even when the call returns Err
@@ -63,7 +75,7 @@ WMerge(h, d, left, right) ==
                  /\ r.lim
                  /\ gs' = [gs EXCEPT ![h] = r.g]
                  /\ issued' = [issued EXCEPT ![h] = @ \cup {r.log[i].ret : i \in {j \in 1..Len(r.log) : r.log[j].op = "next_id"}}]
-                 /\ ev' = [op |-> "merge", h |-> h, src |-> d, left |-> left, right |-> right, ok |-> r.ok, m |-> r.m, missed |-> r.missed]
+                 /\ ev' = [op |-> "merge", h |-> h, src |-> d, left |-> left, right |-> right, ok |-> r.ok, m |-> r.m, missed |-> r.missed] /\ UNCHANGED file
 
 \* deploy_to(): a script is the textual-order fold of the five mutators with a variable table that belongs to ONE
 \* deployment (SodgCore!DeployOp); each variable takes one next_id() result at its first mention.  The programs are a
@@ -76,7 +88,7 @@ WDeploy(h, prog) ==
                  /\ r.lim
                  /\ gs' = [gs EXCEPT ![h] = r.g]
                  /\ issued' = [issued EXCEPT ![h] = @ \cup TabIds(r.tab)]
-                 /\ ev' = [op |-> "deploy", h |-> h, prog |-> prog, tab |-> r.tab]
+                 /\ ev' = [op |-> "deploy", h |-> h, prog |-> prog, tab |-> r.tab] /\ UNCHANGED file
 
 WNext == \/ \E h \in Hs, v \in Ids : WAdd(h, v) \/ WData(h, v)
          \/ \E h \in Hs, v \in Ids, d \in Vals : WPut(h, v, d)
@@ -86,6 +98,7 @@ WNext == \/ \E h \in Hs, v \in Ids : WAdd(h, v) \/ WData(h, v)
          \/ \E h, d \in Hs, v \in Ids, lt \in BOOLEAN : WSlice(h, d, v, lt)
          \/ \E h, d \in Hs, l, r \in Ids : WMerge(h, d, l, r)
          \/ \E h \in Hs, prog \in Progs : WDeploy(h, prog)
+         \/ \E h \in Hs : WSave(h) \/ WLoad(h)
 WSpec == WInit /\ [][WNext]_wvars
 
 (* ------------------------------ properties ---------------------------------- *)
@@ -113,13 +126,19 @@ IssuedBelowPos == \A h \in Hs : Live(h) => \A i \in issued[h] : i < gs[h].nextv
 \* C01 (last clause): only a first read shrinks a graph; clone/save+load/slice/next_id/add/bind/put never do
 OnlyReadsShrink == [][\A h \in Hs : (Live(h) /\ Live(h)' /\ ~(gs[h].present \subseteq gs'[h].present))
                         => (ev'.op = "data" /\ ev'.h = h /\ gs[h].st[ev'.v] = "stored")
-                           \/ (ev'.op \in {"clone", "reload", "slice"} /\ ev'.dst = h)]_wvars
+                           \/ (ev'.op \in {"clone", "reload", "slice", "load"} /\ ev'.dst = h)]_wvars
 
 \* C10 / C08: the copy equals the original (modulo the allocator position for save+load);
 \* a call on one handle never changes another handle
 CopyIsExact == [][ /\ ev'.op = "clone" => gs'[ev'.dst] = gs[ev'.h]
                    /\ ev'.op = "reload" => [gs'[ev'.dst] EXCEPT !.nextv = gs[ev'.h].nextv] = gs[ev'.h] ]_wvars
-Independent == [][\A h \in Hs : (h # ev'.h /\ ~(ev'.op \in {"clone", "reload", "slice"} /\ ev'.dst = h)) => gs'[h] = gs[h]]_wvars
+Independent == [][\A h \in Hs : (h # ev'.h /\ ~(ev'.op \in {"clone", "reload", "slice", "load"} /\ ev'.dst = h)) => gs'[h] = gs[h]]_wvars
+\* C08 with time in between: only save() writes the file, and it writes the graph as it is; load() returns THAT graph
+\* (allocator restarted), not what the original has become; save() changes no graph
+FileIsSnapshot == [][ /\ (file' # file) => (ev'.op = "save" /\ file' = gs[ev'.h] /\ gs' = gs)
+                      /\ (ev'.op = "load") => (gs'[ev'.dst] = [file EXCEPT !.nextv = 0] /\ file' = file) ]_wvars
+\* probe, must be VIOLATED: some load() returns a graph that differs from what its handle held (the roll-back is real)
+ProbeLoadChangesNothing == [][ev'.op = "load" => gs'[ev'.dst] = gs[ev'.dst]]_wvars
 
 \* C13 on the model: kept vertices are exactly the reachable ones, under their ids; every edge between
 \* kept vertices is there and nothing else; the source is unchanged
